@@ -29,7 +29,6 @@ var goOpFor = map[string]token.Token{
 }
 
 func checkC06(r *Run) {
-	w := r.W
 	r.Rule("R1", "precedence table: strict chain && || < == != ~= < comparisons < + - < * / < prefix < call,index; equal level inside a group; fallback level below every operator", 15)
 	r.Rule("R2", "infix registry and precedence table have the same key set", 15)
 	r.Rule("R3", "left associativity: Pratt loop continues on strict 'precedence < peekPrecedence()'; the infix parser recurses with the operator's own level read before advancing; cur/peek lookups use the right token field", 4)
@@ -44,9 +43,8 @@ func checkC06(r *Run) {
 	c06Pratt(r)
 	c06TablesSSA(r)
 	c06ShortCircuitSSA(r)
-	lx := analyseLexerArms(w)
-	c06LexerLiterals(r, lx)
-	lexerCursorRule(r, "R7", lx, func(a lexArm) bool { return !a.isComment })
+	c06LexerLiterals(r)
+	lexerCursorRuleSSA(r, "R7", func(g lexGroup) bool { return !(len(g.bytes) == 1 && g.bytes[0] == '#') })
 }
 
 // ---- R1/R2 ---------------------------------------------------------------------
